@@ -7,7 +7,8 @@ NoGens == {}
 
 Cfg(routine, bootR, bootP, cv, nCv, n, kR, kP, byR, byP, bootNc, nM, plR, plP) ==
   [routine |-> routine, bootR |-> bootR, bootP |-> bootP, cv |-> cv, nCv |-> nCv, N |-> n, kR |-> kR, kP |-> kP,
-   byR |-> byR, byP |-> byP, bootNc |-> bootNc, nM |-> nM, plR |-> plR, plP |-> plP]
+   byR |-> byR, byP |-> byP, bootNc |-> bootNc, nM |-> nM, plR |-> plR, plP |-> plP,
+   method |-> "M"]        \* "M" = the comparison method the routine is called with (bound by the driver)
 
 RBys == {"index", "subj", "grp"}
 PBys == {"index", "cond", "cat"}
